@@ -422,7 +422,7 @@ func writesOf(fn *ssa.Function) []Write {
 				}
 				q := calleeQualified(c)
 				if inPlaceStdlib[q] && len(c.Args) > 0 {
-					ws = append(ws, Write{Instr: ins, Kind: "in-place "+q, Base: c.Args[0]})
+					ws = append(ws, Write{Instr: ins, Kind: "in-place " + q, Base: c.Args[0]})
 				}
 				if f := c.StaticCallee(); f != nil && f.Signature.Recv() != nil && len(c.Args) > 0 {
 					if pk := fnPkg(f); pk != nil && pk.Path() == "sync/atomic" {
